@@ -107,6 +107,16 @@ def run(v, prefixes=("C08",), pid="C08"):
     for k in range(60 if quick else 1200):
         for run in cp.stride_runs(p, rng):
             events.append(cp.compact_event(cp.permuted(run, rng, dup=False)))
+    # a face together with the complete cover, two or three levels down, of the resolution-1 cell whose top bits equal
+    # the face number (the face's id sorts among those descendants in plain numeric order): the cover has to cascade
+    for f in range(1, 12):
+        seg = (f << 58) | (1 << 56)
+        for depth in ((3,) if quick else (3, 4)):
+            try:
+                cover = ser.cell_to_children(seg, depth)
+            except Exception:
+                continue
+            events.append(cp.compact_event(cp.permuted([faces[f]] + cover, rng, dup=False)))
     # subsets of the twelve faces (eleven of them, after the client removed one from a list the API gave it)
     for k in range(10 if quick else 60):
         sub = list(faces)
